@@ -391,12 +391,63 @@ def translate_source(src: str, name: str | None = None) -> str:
     return _Fn(defs[0], defs[0].name).translate()
 
 
-def module_text(namespace: str, functions, imports=()) -> str:
-    texts = [translate_function(fn) for fn in functions]
+def module_text(namespace: str, functions, imports=()):
+    """-> (Lean text, [Unsupported]).  A function outside the subset is left out of the text (a comment says why), so that exactly the
+    obligations about it stop building; the caller reports the errors."""
+    texts, errors = [], []
+    for fn in functions:
+        try:
+            texts.append(translate_function(fn))
+        except Unsupported as e:
+            errors.append(e)
+            texts.append(f"-- NOT TRANSLATED: `{getattr(fn, '__name__', '?')}` is outside the subset of harness/pytolean.py: {e}\n")
     lines = [f"import {m}" for m in imports]
     lines += [f"namespace {namespace}", ""]
     if any(" Exit " in t for t in texts):
         lines.append(HEADER)
     lines += texts
     lines += [f"end {namespace}", ""]
-    return "\n".join(lines)
+    return "\n".join(lines), errors
+
+
+# ------------------------------------------------------------------------------------------------ self-test
+_REJECTED = {
+    "While": "def f(s):\n    i = 0\n    while i < 3:\n        i += 1\n    return i\n",
+    "AugAssign": "def f(s):\n    i = 0\n    for c in s:\n        i -= 1\n    return i\n",
+    "Constant": "def f(s):\n    i = 0\n    for c in s:\n        if c == 'ab':\n            i += 1\n    return i\n",
+    "For": "def f(s):\n    i = 0\n    for c in s:\n        i += 1\n    else:\n        i += 2\n    return i\n",
+    "Assign": "def f(s):\n    i = 0\n    for c in s:\n        j = True\n    return i\n",
+    "Name": "def f(s):\n    st = 0\n    for c in s:\n        st += 1\n    return st\n",
+    "Compare": "def f(s):\n    i = 0\n    for c in s:\n        if c in ' \\t':\n            i += 1\n    return i\n",
+    "Call": "def f(s):\n    return s.strip()\n",
+    "Subscript": "def f(s):\n    b = False\n    for k, c in enumerate(s):\n        if c == '#':\n            return s[k:]\n    return s\n",
+    "FunctionDef": "def f(s, t):\n    return s\n",
+    "Name ": "def f(s):\n    i = 0\n    b = False\n    for c in s:\n        if b:\n            return s\n        i += 1\n    return i\n",
+    "Assign ": "def f(s):\n    i = -1\n    for c in s:\n        i += 1\n    return i\n",
+}
+
+
+def selftest(quiet: bool = False) -> int:
+    import builtins
+    print = (lambda *a, **k: None) if quiet else builtins.print
+    bad = 0
+    for kind, src in _REJECTED.items():
+        try:
+            translate_source(src)
+            print("selftest: ACCEPTED a function outside the subset:", kind)
+            bad += 1
+        except Unsupported as e:
+            if e.kind != kind.strip():
+                print(f"selftest: {kind}: refused as {e}")
+                bad += 1
+    ok = translate_source("def count(s):\n    n = 0\n    q = False\n    for c in s:\n        if c == '\"':\n            q = not q\n            continue\n        if q or c != ' ':\n            n += 2\n    return n\n")
+    if "{ st with n := st.n + 2 }" not in ok or "{ st with q := !st.q }" not in ok:
+        print("selftest: unexpected translation\n" + ok)
+        bad += 1
+    print("selftest:", "ok" if not bad else f"{bad} problem(s)")
+    return 1 if bad else 0
+
+
+if __name__ == "__main__":
+    import sys
+    sys.exit(selftest())
